@@ -1334,6 +1334,10 @@ func (in *Interp) rangeIter(x Value) *MapIter {
 			ents := append([]*mapEnt(nil), x.m.ents...)
 			if in.path.mapOrder && len(ents) > 1 {
 				ents = in.permute(ents)
+			} else if in.path.mapReverse {
+				for i, j := 0, len(ents)-1; i < j; i, j = i+1, j-1 {
+					ents[i], ents[j] = ents[j], ents[i]
+				}
 			}
 			it.ents = ents
 		}
